@@ -745,6 +745,24 @@ class DataFrame:
                 keep.append(i)
         return self._take(keep)
 
+    def round(self, decimals=0):
+        """DataFrame.round: numeric columns named in the dict (or all, for an int) are rounded half-to-even like numpy"""
+        from .engine import SymReal as _SR, SymInt as _SI
+        which = decimals if isinstance(decimals, dict) else {c: decimals for c in self.cols}
+        out = {}
+        for c, vals in self.cols.items():
+            if c not in which:
+                out[c] = list(vals)
+                continue
+            new = []
+            for v in vals:
+                v0 = np._unbox(v)
+                if isinstance(v0, _SR):
+                    raise ModelGap("DataFrame.round of a symbolic real")
+                new.append(float(round(v0, which[c])) if isinstance(v0, float) else v)
+            out[c] = new
+        return DataFrame(out, self._index)
+
     def sort_values(self, by):
         by = [by] if isinstance(by, str) else list(by)
         rows = self._rows(by)
